@@ -10,9 +10,9 @@ git checkout -q -- src 2>/dev/null
 git apply $out/patch.diff || { echo "patch does not apply"; exit 2; }
 mkdir -p examples; cp $out/demo.rs examples/demo.rs
 tests=$(cargo test --workspace --no-fail-fast --offline 2>&1 | grep -E "^test result" | tr '\n' ' ')
-cargo run --offline --quiet --example demo > $wt/demo_with.txt 2>&1; rc_with=$?
+cargo run --offline --quiet $DEMO_FLAGS --example demo > $wt/demo_with.txt 2>&1; rc_with=$?
 git checkout -q -- src
-cargo run --offline --quiet --example demo > $wt/demo_without.txt 2>&1; rc_without=$?
+cargo run --offline --quiet $DEMO_FLAGS --example demo > $wt/demo_without.txt 2>&1; rc_without=$?
 python3 - "$id" "$prop" "$tests" "$rc_with" "$rc_without" "$wt" <<'PY'
 import json,sys,os,re
 sid,prop,tests,rcw,rcwo,wt=sys.argv[1:7]
